@@ -7,7 +7,7 @@ CONSTANTS
   MaxText = 1
   Shapes = {1, 2, 3, 4, 5, 6, 7, 8}
   ConvIds = {1, 2, 3, 4, 5, 6, 7, 8, 9, 10, 11, 12}
-  Binds = {12, 23, 61}
+  Binds = {12, 61}
 INIT Init
 NEXT Next
 INVARIANT ExportCase
